@@ -82,7 +82,17 @@ def body_classes():
     def __call__(self, x):
       return jnp.tanh(nn.Dense(self.d, name='lin')(x))
 
-  _B = dict(Body=Body, VBody=VBody, KeyBody=KeyBody, VKeyBody=VKeyBody, DenseBody=DenseBody)
+  class RSKeyBody(nn.Module):
+    streams: tuple
+
+    @nn.compact
+    def __call__(self, x):
+      for s in self.streams:
+        self.variable('keys', s, lambda s=s: jax.random.key_data(self.make_rng(s)))
+      w = self.param('w', nn.initializers.normal(1.0), (2,))
+      return jnp.tanh(x * w)
+
+  _B = dict(RSKeyBody=RSKeyBody, Body=Body, VBody=VBody, KeyBody=KeyBody, VKeyBody=VKeyBody, DenseBody=DenseBody)
   return _B
 
 
@@ -381,7 +391,34 @@ def run_remat_scan(ctx, i, rng):
     ctx.check(len({r.tobytes() for r in flat}) == flat.shape[0], 'remat_scan:layers_share_init', lambda: dict(case=desc))
 
 
+def run_remat_scan_rng(ctx, i, rng):
+  """remat_scan with user split_rngs: at EVERY nesting level split streams differ per iteration, unsplit streams do not."""
+  import jax
+  import flax.linen as nn
+  B = body_classes()
+  lengths = [(2, 3), (3,), (2, 2, 2), (1, 3), (3, 2)][i % 5]
+  streams = ('noise', 'other')
+  split = {'params': True, 'noise': bool(i % 2), 'other': bool((i // 2) % 2)}
+  desc = dict(lengths=lengths, split=split)
+  with ctx.case('remat_scan_rng', i, desc, nontrivial=True):
+    RS = nn.remat_scan(B['RSKeyBody'], lengths=lengths, split_rngs=split)
+    m = RS(streams)
+    rngs = {'params': jax.random.key(i), 'noise': jax.random.key(10 + i), 'other': jax.random.key(20 + i)}
+    V = m.init(rngs, np.ones((2,), np.float32))
+    ctx.op('nn.remat_scan(split_rngs)')
+    n = int(np.prod(lengths))
+    for s in streams:
+      k = np.asarray(V['keys'][s]).reshape((n, -1))
+      rows = {r.tobytes() for r in k}
+      if split[s]:
+        ctx.check(len(rows) == n, 'rng:split_stream_repeats_key', lambda: dict(case=desc, stream=s, distinct=len(rows)))
+      else:
+        ctx.check(len(rows) == 1, 'rng:unsplit_stream_varies', lambda: dict(case=desc, stream=s, distinct=len(rows)))
+
+
 def run(ctx):
+  for i in ctx.indices(12 if ctx.tier == 'quick' else 60, 'remat_scan_rng'):
+    run_remat_scan_rng(ctx, i, ctx.rng('rsr', i))
   for i in ctx.indices(200 if ctx.tier == 'quick' else 2400, 'scan'):
     run_scan(ctx, i, ctx.rng('scan', i))
   for i in ctx.indices(100 if ctx.tier == 'quick' else 1200, 'vmap'):
